@@ -63,6 +63,8 @@ def make_flows(ka, kb, rel, cidrel, seed):
             e.update(server_ip="192.0.12.80", server_port=44330, client_ip="10.11.0.2")
         if rel == "v4_v6" and idx == 1:
             e.update(v6=True)
+        if kind == "quic" and "ch_split" in scn and idx == 1:
+            scn["offered"] = [scn["suite"], 0x1302, 0x1303, 0x1304]     # ClientHellos of different lengths, same split offset
         if kind == "quic" and cidrel != "distinct":
             base = scen.rng_for(seed, "c04cid", ka, kb).randbytes(8)
             if cidrel == "both_clients_zero":
